@@ -15,6 +15,7 @@ FAMILIES = ('flip', 'truncate', 'extend', 'swap', 'cross-swap', 'replay', 'delet
 
 class Check(CheckBase):
     property_id = 'C04'
+    evaluations_counter = 'corruptions'
     level = 'fault_enumeration'
     rule = ('repositories written by the real snapshot command (1-3 snapshots, 1-2 same-family users, all ciphers/hashes, '
             'encrypted and not); for sampled chunk objects and every snapshot object the corruption families {bit flip at '
